@@ -269,6 +269,7 @@ def _generate(loader):
         def forward(self, points, grid=False):
             return self._y
 
+    disp_other_arms = []
     for D in (2, 3):
         x = st.symvec("x", D)
         for f in FORMS:
@@ -302,12 +303,18 @@ def _generate(loader):
                     out.append(trlib.emit_match_def(f"gen_affine_flow_{f}_{D}", [("a", a), ("x", x)], [], flv, None,
                                                     f"core.flow.affine_flow value at a point x, form {f}, D = {D}"))
                 # disp(grid) == affine_flow at grid.coords(): own grid and another grid, concrete sizes 3 x 2 (x 2)
+                own_axes_ = Axes.CUBE_CORNERS if ac else Axes.CUBE
                 sizes = (3, 2) if D == 2 else (3, 2, 2)
                 for other_ac in (False, True):
                     for own in (True, False):
                         go = mk_grid(Grid, D, p="" if own else "o", align=ac if own else other_ac)
                         go._size = st.tensor([float(v) for v in sizes])
-                        tt = AnyLinear(go, st.Tensor(a.a[None])) if own else t
+                        if own:
+                            gown = go
+                        else:
+                            gown = mk_grid(Grid, D, align=ac)      # own grid with concrete sizes too (Grid.__eq__ compares the sizes)
+                            gown._size = st.tensor([float(v + 1) for v in sizes])
+                        tt = AnyLinear(gown, st.Tensor(a.a[None]))
                         st.GENERIC_DISTINCT = True
                         try:
                             d = tt.disp() if own else tt.disp(go)
@@ -318,10 +325,45 @@ def _generate(loader):
                             raise TraceError(f"disp shape {tuple(d.shape)}")
                         for idx in np.ndindex(*reversed(sizes)):
                             pnt = st.Tensor(co.a[idx].reshape((1,) * (D + 1) + (D,)))
-                            ref = flow.affine_flow(st.Tensor(a.a[None]), pnt).a.reshape(D)
+                            mat_ = st.Tensor(a.a[None])
+                            if not own:
+                                # another grid: the matrix re-expressed in that grid's cube (other cube -> own cube -> M -> own cube -> other cube)
+                                oax = Axes.CUBE_CORNERS if other_ac else Axes.CUBE
+                                st.GENERIC_DISTINCT = True
+                                try:
+                                    pre_ = go.transform(oax, own_axes_, to_grid=gown)
+                                    post_ = gown.transform(own_axes_, oax, to_grid=go)
+                                finally:
+                                    st.GENERIC_DISTINCT = False
+                                mat_ = linalg.homogeneous_matmul(post_, mat_, pre_)
+                            ref = flow.affine_flow(mat_, pnt).a.reshape(D)
                             got = np.array([d.a[(0, i) + idx] for i in range(D)], dtype=object)
                             if not trlib.same_tensor(got, ref):
-                                raise TraceError(f"disp({'own' if own else 'other'} grid) is not affine_flow at grid.coords() ({f}, D={D})")
+                                raise TraceError(f"disp({'own' if own else 'other'} grid) is not affine_flow of the "
+                                                 f"{'matrix' if own else 're-expressed matrix'} at grid.coords() ({f}, D={D})")
+                # the dense field on ANOTHER grid at a symbolic point of that grid's cube (2-D, emitted; Coq proves it is disp_reexpressed)
+                if D == 2:
+                    for other_ac in (False, True):
+                        xs_ = st.symvec("x", D)
+
+                        class PointGrid(Grid):
+                            __slots__ = ()
+
+                            def coords(self, *args, **kwargs):
+                                return st.Tensor(xs_.a.reshape((1,) * D + (D,)))
+                        gh = mk_grid(PointGrid, D, p="h", align=other_ac)
+                        st.GENERIC_DISTINCT = True
+                        try:
+                            dh = t.disp(gh)
+                        finally:
+                            st.GENERIC_DISTINCT = False
+                        if tuple(dh.shape) != (1, D) + (1,) * D:
+                            raise TraceError(f"disp(other grid) at one point has shape {tuple(dh.shape)}")
+                        nm = f"gen_disp_other_{f}_2_{'ac' if ac else 'nac'}_{'ac' if other_ac else 'nac'}"
+                        out.append(trlib.emit_match_def(nm, grid_inputs(g) + grid_inputs(gh, "h") + [("a", a), ("x", xs_)], [], st.Tensor(dh.a.reshape(D)), None,
+                                                        f"SpatialTransform.disp(h) of a linear transform (form {f}, own flag {ac}) at the point x of the cube "
+                                                        f"of another grid h (flag {other_ac})"))
+                        disp_other_arms.append(f"  | {COQF[f]}, {'true' if ac else 'false'}, {'true' if other_ac else 'false'} => {nm} n s c d hn hs hc hd a x")
                 # points(): world axes on the own grid (emitted), and the general plumbing (structural)
                 gi = grid_inputs(g)
                 yw = last(t.points(st.Tensor(x.a.reshape(1, 1, D)), axes=Axes.WORLD))
@@ -504,6 +546,8 @@ def _generate(loader):
         arms = [f"  | {D}%nat, {COQF[f]} => {nm}_{f}_{D} a{call}" for D in (2, 3) for f in FORMS]
         out.append(f"Definition {nm} (D : nat) (f : form) (a : list (list K)){extra} : {rty} :=\n"
                    "  match D, f with\n" + "\n".join(arms) + "\n  | _, _ => []\n  end.\n")
+    out.append("Definition gen_disp_other2 (f : form) (ac ac' : bool) (n s c : list K) (d : list (list K)) (hn hs hc : list K) (hd a : list (list K)) "
+               "(x : list K) : list K :=\n  match f, ac, ac' with\n" + "\n".join(disp_other_arms) + "\n  end.\n")
     arms = [f"  | {D}%nat, {COQF[f]}, {'true' if ac else 'false'} => gen_points_world_{f}_{D}_{'ac' if ac else 'nac'} n s c d a x"
             for D in (2, 3) for f in FORMS for ac in (False, True)]
     out.append("Definition gen_points_world (D : nat) (f : form) (ac : bool) (n s c : list K) (d a : list (list K)) (x : list K) : list K :=\n"
@@ -511,6 +555,7 @@ def _generate(loader):
 
     # ---------------------------------------------------------------- ImageTransformer: sampling coordinates
     rounding = []
+    it_flag_table = []
     real_round = G.round_decimals
 
     def round_recorder(t, decimals=0, out=None):
@@ -538,13 +583,25 @@ def _generate(loader):
                     if args or kwargs.get("flip", False) or set(kwargs) - {"align_corners", "flip", "device"}:
                         raise TraceError(f"ImageTransformer calls target.coords with {args} {kwargs}")
                     return st.Tensor(xc.a.reshape((1,) * D + (D,)))
+
+                def same_domain_as(self, other):
+                    # the answer is chosen by the unit (the cube comparison itself is C01/C03 business); what is traced is
+                    # WHICH grid the target is compared with and where the answer goes
+                    domain_calls.append(other)
+                    return domain_answer[0]
+            domain_calls, domain_answer, seen_flags = [], [True], []
+
+            class RecAny(AnyLinear):
+                def forward(self, points, grid=False):
+                    seen_flags.append(bool(grid))
+                    return super().forward(points, grid)
             for f in FORMS:
                 a = mat_input("a", D, f)
                 for ac in (False, True):
                     gt = mk_grid(Grid, D, p="g", align=ac)           # transform grid
                     tg = mk_grid(TargetGrid, D, p="t", align=not ac)  # target (its own flag must not matter)
                     src = mk_grid(Grid, D, p="u", align=not ac)       # source
-                    t = AnyLinear(gt, st.Tensor(a.a[None]))
+                    t = RecAny(gt, st.Tensor(a.a[None]))
                     st.GENERIC_DISTINCT = True
                     try:
                         del coords_calls[:]
@@ -552,8 +609,16 @@ def _generate(loader):
                         if len(coords_calls) != 1 or coords_calls[0].get("align_corners") is not ac:
                             raise TraceError("ImageTransformer does not request target.coords(align_corners=transform.align_corners())")
                         img = st.Tensor(np.array([E.var("img")], dtype=object).reshape((1, 1) + (1,) * D))
-                        captured.clear()
-                        it(img)
+                        for ans in (False, True):
+                            domain_answer[0] = ans
+                            del domain_calls[:], seen_flags[:]
+                            captured.clear()
+                            it(img)
+                            if len(domain_calls) != 1 or domain_calls[0] is not gt:
+                                raise TraceError("ImageTransformer.forward does not compare the target grid's domain with the transform's grid")
+                            if len(seen_flags) != 1:
+                                raise TraceError("ImageTransformer.forward does not call the transform exactly once")
+                            it_flag_table.append((ans, seen_flags[0]))
                         if captured.get("ac") is not ac:
                             raise TraceError("ImageTransformer samples with an align_corners flag other than the transform grid's")
                         sc = last(captured["grid"])
@@ -577,6 +642,10 @@ def _generate(loader):
         sample.U.grid_sample = real_gs
     if set(rounding) - {12, None}:
         raise TraceError(f"ImageTransformer rounds pre-mapped coordinates to {set(rounding)} decimals (expected 12)")
+    out.append("(* ImageTransformer.forward: (is the target a lattice of the transform's domain (target.same_domain_as(transform.grid())),\n"
+               "   grid flag handed to the transform) for every traced call *)")
+    out.append("Definition gen_image_transformer_flag_table : list (bool * bool) :=\n  [" +
+               "; ".join(f"({'true' if a_ else 'false'}, {'true' if b_ else 'false'})" for a_, b_ in it_flag_table) + "].\n")
     out.append("Definition gen_warp_coords2 (f : form) (ac : bool) (tn ts tc : list K) (td : list (list K)) (gn gs gc : list K) (gd : list (list K))\n"
                "    (un us uc : list K) (ud a : list (list K)) (x : list K) : list K :=\n  match f, ac with\n" +
                "\n".join(warp_arms) + "\n  end.\n")
